@@ -313,3 +313,58 @@ def glyph_name_to_unicode_all_code_points(tier, rnd):
             if len(r.violations) >= 5:
                 break
     return r
+
+
+@check("C15")
+def type1_charstring_encryption_roundtrip(tier, rnd):
+    """Type 1 charstring encryption with a declared number of random prefix bytes: for lenIV in
+    0..7 (0 = no prefix, 4 = the default, also 'not declared'), T1Font.createData followed by
+    parsing the written data gives back every glyph program and every subroutine unchanged."""
+    import os
+    from fontTools.t1Lib import T1Font
+    from _common import REPO
+    r = Result("the repository's Type 1 test fonts x lenIV {absent, 0..7}; distinct = (font, lenIV)")
+    d = os.path.join(REPO, "Tests", "t1Lib", "data")
+    for fn in sorted(os.listdir(d)):
+        if not fn.endswith((".pfa", ".pfb")):
+            continue
+        for lenIV in (None, 0, 1, 2, 3, 4, 5, 7):
+            r.case((fn, lenIV))
+            f = T1Font(os.path.join(d, fn))
+            f.parse()
+            want = {}
+            for n, cs in f.font["CharStrings"].items():
+                cs.decompile()
+                want[n] = list(cs.program)
+            subrs = []
+            for cs in f.font["Private"]["Subrs"]:
+                cs.decompile()
+                subrs.append(list(cs.program))
+            if lenIV is None:
+                f.font["Private"].pop("lenIV", None)
+            else:
+                f.font["Private"]["lenIV"] = lenIV
+            try:
+                data = f.getData()
+                g = T1Font.__new__(T1Font)
+                g.data, g.encoding = data, "ascii"
+                g.parse()
+                got = {}
+                for n, cs in g.font["CharStrings"].items():
+                    cs.decompile()
+                    got[n] = list(cs.program)
+                gsubrs = []
+                for cs in g.font["Private"]["Subrs"]:
+                    cs.decompile()
+                    gsubrs.append(list(cs.program))
+            except Exception as e:
+                r.fail("%s with lenIV %r: write + parse raised %s: %s" % (fn, lenIV, type(e).__name__, e))
+                continue
+            if got != want:
+                bad = sorted(n for n in want if got.get(n) != want[n])[:3]
+                r.fail("%s with lenIV %r: glyph programs differ after write + parse, e.g. %s: %r -> %r" % (fn, lenIV, bad, want.get(bad[0]) if bad else None, got.get(bad[0]) if bad else None))
+            if gsubrs != subrs:
+                r.fail("%s with lenIV %r: subroutines differ after write + parse" % (fn, lenIV))
+            if g.font["Private"].get("lenIV", 4) != (4 if lenIV is None else lenIV):
+                r.fail("%s: lenIV %r was written as %r" % (fn, lenIV, g.font["Private"].get("lenIV")))
+    return r
